@@ -937,6 +937,47 @@ static void check_recovery(const struct dg_cfg *c, int from, const char *dmg, co
 	}
 }
 
+/* _vbi_dvb_demultiplex_sliced() (the function behind the DVB capture device) on the data units of one intact
+   PES packet, with a caller array of exactly max_lines records in its own heap block: never more than max_lines
+   records, and those delivered are the lines sent, in order */
+static void check_demultiplex_sliced(struct vf_rng *r, int pkt, int defined_lines)
+{
+	int f = first_item_of(pkt);
+	const struct sent *st = &sent[pkt];
+	unsigned max_lines, n_lines = 12345, left, k;
+	vbi_sliced *arr;
+	const uint8_t *bp;
+	uint8_t *copy;
+	vbi_bool ok;
+	if (f < 0 || items[f].len <= 46 || items[f].damaged) return;
+	max_lines = vf_chance(r, 1, 4) ? 0 : (unsigned)vf_range(r, 0, st->n + 1);
+	arr = malloc(sizeof *arr * (max_lines ? max_lines : 1) - (max_lines ? 0 : sizeof *arr - 1));   /* max_lines == 0: a 1 byte block */
+	copy = malloc(items[f].len - 46);
+	if (!arr || !copy) { free(arr); free(copy); return; }
+	memcpy(copy, items[f].data + 46, items[f].len - 46);
+	bp = copy; left = (unsigned)(items[f].len - 46);
+	vf_phase("_vbi_dvb_demultiplex_sliced");
+	ok = _vbi_dvb_demultiplex_sliced(arr, &n_lines, max_lines, &bp, &left);
+	vf_count("demultiplex_sliced_calls", 1);
+	if (n_lines > max_lines)
+		vf_fail("model:C07:demultiplex-sliced:more-than-max-lines", "_vbi_dvb_demultiplex_sliced with max_lines=%u on a packet of %d lines reported n_lines=%u", max_lines, st->n, n_lines);
+	else {
+		for (k = 0; k < n_lines && (int)k < st->n; k++) {
+			struct rline l;
+			to_rline(&l, &arr[k]);
+			if (!same_rline(&l, &st->l[k])) {
+				vf_fail("model:C07:demultiplex-sliced:line-differs", "_vbi_dvb_demultiplex_sliced max_lines=%u: record %u is id 0x%x line %u, sent id 0x%x line %u", max_lines, k, l.id, l.line, st->l[k].id, st->l[k].line);
+				break;
+			}
+		}
+		/* with undefined line numbers (line_offset 0) a change of the field parity starts a new frame inside the
+		   packet and the function stops there: completeness is demanded for defined line numbers only */
+		if (defined_lines && (int)max_lines >= st->n && (!ok || (int)n_lines != st->n) && st->n_du > 0)
+			vf_fail("model:C07:demultiplex-sliced:incomplete", "_vbi_dvb_demultiplex_sliced max_lines=%u on an intact packet of %d lines returned %d with n_lines=%u", max_lines, st->n, (int)ok, n_lines);
+	}
+	free(arr); free(copy);
+}
+
 /* ---------------- the case ---------------- */
 
 static int run_case(struct vf_rng *r, long idx)
@@ -1012,6 +1053,10 @@ static int run_case(struct vf_rng *r, long idx)
 				int v2 = vf_range(r, 0, 1);
 				apply_damage(r, c.ts ? D_TS_CC : D_BITFLIP, v2, &c, d2, sizeof d2);
 			}
+		}
+		if (!c.ts && (type == T_CLEAN || type == T_LINE0) && n_sent > 0) {
+			int k;
+			for (k = 0; k < 3; k++) check_demultiplex_sliced(r, vf_range(r, 0, n_sent - 1), type == T_CLEAN);
 		}
 		concat();
 		if (type == T_MUTATED) {
